@@ -31,6 +31,8 @@ def gen(rng, tier):
     if rng.random() < 0.5:
         focus["density"] = 0.5
     spec = C.gen_edit(rng, C.maybe_prelude_backward(rng, C.maybe_dep_edit(rng, C.maybe_history(rng, C.forward_spec(rng, tier, focus), 0.3), 0.3), 0.1))
+    if spec.get("history") is not None and rng.random() < 0.3:
+        spec["history"]["charts_between"] = True  # the chart-data helpers are called between the two calls
     if rng.random() < 0.08 and not spec.get("edit"):
         spec["cfg"]["unit_time"] = rng.choice([2, 3])  # the clock advances by 2 or 3 per step; the absence list names times
     if rng.random() < 0.1 and not spec.get("edit"):
